@@ -29,6 +29,14 @@ CHECKS = {
   design_ref="DESIGN.md section 4",
   note="Trusted: Go runtime/bufio, the harness' simulated reader/sink, the object generators (random residues, not cryptographically meaningful keys). Corruption positions are found format-independently (small little-endian words, 0/1 bytes); for encodings containing map keys the 'accepted but shorter' sub-check is skipped (a collided key is not a length/flag field). Allocation bound 1 GiB. bootstrapping.EvaluationKeys and bootstrapping.Parameters are not in the catalog yet.",
 ),
+"C15": dict(
+  engine="simnet",
+  technique="deterministic discrete-event network simulation of the threshold set-up and reconstruction: seeded message delay/reordering, duplication, in-transit serialization, crash of parties during and after set-up, long-lived combiners; ideal-secret oracle; minimised choice-trace replay",
+  category="exploration",
+  text="Each run simulates N parties (1..6) sharing their secrets over a transport that delays, reorders, duplicates and serializes the Shamir shares, aggregated by each recipient in arrival order and in every aliasing form; parties crash during set-up (abort: only absence of panics is asserted) or afterwards; then drawn t-subsets of survivors (about 1 run in 8: every t-subset) reconstruct, each party listing the active set in its own order on a Combiner that is reused across rounds and was built from a differently ordered 'others' list. The simulator knows every secret, so it checks that the additive shares sum to the ideal secret in every RNS row of Q and P, that inputs are untouched, and that any listing shorter than t is refused with an error; after the faults stop every party must hold all N set-up shares (bounded liveness).",
+  design_ref="DESIGN.md section 7.2",
+  note="Trusted: ringqp.Add for summing keys, the harness' canonical comparison. Points are drawn distinct and non-zero modulo every prime (Shamir precondition). The downstream 'same decryptions as the N-party run' clause follows from equality of the summed key and is exercised end-to-end in C16's threshold mode.",
+),
 "C17": dict(
   engine="histsim",
   technique="deterministic simulation of call histories on samplers and their level views over one keyed source, twin execution from the same key, reset-and-replay, per-call distribution-contract invariants; minimised choice-trace replay",
@@ -70,6 +78,7 @@ def main():
         "engines": [
             {"name": "core", "path": "sim/core", "serves_properties": sorted(CHECKS), "kind_free_text": "seeded chooser (single source of choices), deterministic crypto/rand replacement, worker processes with fatal-error attribution, delta-debugging shrinker on the choice trace, replay files, determinism audit, evidence writer"},
             {"name": "simio", "path": "sim/simio", "serves_properties": ["C08"], "kind_free_text": "simulated byte stream: fragmenting/ending/failing reader, failing sink"},
+            {"name": "simnet", "path": "sim/simnet", "serves_properties": [p for p in ["C14", "C15", "C16"] if p in CHECKS], "kind_free_text": "discrete-event network simulator: virtual clock, event heap ordered by (time, seq), transport with seeded delay/reordering/duplication, party crash, bounded event budget"},
             {"name": "histsim", "path": "sim/props (c17.go, c09.go)", "serves_properties": [p for p in ["C09", "C17"] if p in CHECKS], "kind_free_text": "history simulator: seeded call histories on long-lived objects with twin execution, scratch poisoning and reset/replay"},
         ],
         "checks": checks,
